@@ -152,7 +152,9 @@ def server_correspondence(res, rng, projects, tier, prefer=()):
                             if lbl == "valid" or lbl.startswith("missing:") or lbl.startswith("ill:")}
                 picks = ["valid"] + [l for l in labelled if l != "valid"][:1]
                 for mask in range(1 << kk):
-                    refuse = {"#%d" % i: {"status": STATUSES[i], "message": "no %d" % i} for i in range(kk) if mask >> i & 1}
+                    # every other assignment: the refusing callback returns a NIL context with its refusal
+                    refuse = {"#%d" % i: {"status": STATUSES[i], "message": "no %d" % i, "nil_ctx": bool(mask % 2 == 1 and i > 0) or bool(mask == 1)}
+                              for i in range(kk) if mask >> i & 1}
                     for lbl in picks:
                         rq, tags = labelled[lbl]
                         for e in R.ENGINES:
